@@ -318,7 +318,20 @@ def check_terms_within(ctx, b, w, d, p, pop):
     wit = {"api": "reader.terms_within('t', word, maxdist, prefix)", "word": w, "maxdist": d, "prefix": p,
            "index": b.describe(), "lexicon": _small(lex, 70)}
     reader = b.searcher.reader()
-    ok, got = ctx.guard("terms_within.%s" % tag, wit, lambda: list(reader.terms_within("t", w, d, prefix=p)))
+    # half of the look-ups are consumed late: the generator is created, ANOTHER complete look-up runs on the same reader and
+    # field, and only then the first one is read (two look-ups are independent of each other)
+    defer = (len(w) + d + p) % 2 == 0
+    other = max(lex) if lex else "b"
+
+    def lookup():
+        g = reader.terms_within("t", w, d, prefix=p)
+        if defer:
+            list(reader.terms_within("t", other, 1))
+        return list(g)
+    if defer:
+        wit["consumed"] = "after another complete terms_within(%r, 1) on the same reader" % (other,)
+        ctx.count("tw.deferred_consumption")
+    ok, got = ctx.guard("terms_within.%s" % tag, wit, lookup)
     ctx.count("tw.%s.evals" % tag)
     if p > len(w):
         ctx.count("reach.prefix>len")
